@@ -619,6 +619,32 @@ func (c *cstate) clone() *cstate {
 // feasible evaluates `cond` under the constraints: returns (canBeTrue, canBeFalse).
 func (c *cstate) feasible(cond ssa.Value) (bool, bool) {
 	b, ok := cond.(*ssa.BinOp)
+	if ok && (b.Op == token.LSS || b.Op == token.LEQ || b.Op == token.GTR || b.Op == token.GEQ) {
+		// an ordered comparison of a value the path has pinned to a number with a constant
+		x, y, op := b.X, b.Y, b.Op
+		if _, xc := x.(*ssa.Const); xc {
+			x, y, op = y, x, flipCmp(op)
+		}
+		if yc, isC := y.(*ssa.Const); isC && yc.Value != nil && yc.Value.Kind() == constant.Int {
+			v := x
+			for i := 0; i < 3; i++ {
+				if k, has := c.eq[v]; has {
+					if kv := constant.MakeFromLiteral(k, token.INT, 0); kv.Kind() == constant.Int {
+						t := constant.Compare(kv, op, yc.Value)
+						return t, !t
+					}
+					break
+				}
+				switch cv := v.(type) {
+				case *ssa.ChangeType:
+					v = cv.X
+					continue
+				}
+				break
+			}
+		}
+		return true, true
+	}
 	if !ok || (b.Op != token.EQL && b.Op != token.NEQ) {
 		if u, ok := cond.(*ssa.UnOp); ok && u.Op == token.NOT {
 			t, f := c.feasible(u.X)
